@@ -100,9 +100,26 @@ def handleTokens (inp : List String) (obs : String) : Verdict :=
           let m := gffCalls model
           if m == callsMeta then ok tags else diff m tags
     | _, _ => bad "gffr"
+  | ["dt", hex] =>
+    -- time.Parse(gff.Astronomical, s): the exact model against the real parser
+    match bytesOfHex hex with
+    | some s =>
+      let m := match Biogo.Go.TimeDate.parseAstronomical s with
+        | some (y, mo, d) => s!"ok {y} {mo} {d}"
+        | none => "err"
+      let tags := ["date", if m == "err" then "date-rejected" else "nt"]
+      if m == obs then ok tags else diff m tags
+    | none => bad "dt"
+  | ["dtf", y, mo, d] =>
+    -- Time.Format(gff.Astronomical)
+    match parseNat y, parseNat mo, parseNat d with
+    | some y, some mo, some d =>
+      let m := hexOfBytes (Biogo.Go.TimeDate.formatAstronomical y mo d)
+      if m == obs then ok ["date-format", "nt"] else diff m ["date-format"]
+    | _, _, _ => bad "dtf"
   | _ => bad "unknown-op"
 
-def ops : List String := ["bedr", "gffr"]
+def ops : List String := ["bedr", "gffr", "dt", "dtf"]
 
 def handle (line : String) : String :=
   let (inp, obs) := splitCase line
